@@ -303,8 +303,10 @@ class Gen:
             f = {'reads': [r1, r2]}
             frags.append(f)
         umi = ''.join(rng.choice(BASES) for _ in range(rng.choice([3, 6, 8])))
-        if nfrag >= 3 and rng.random() < 0.3:
-            k = rng.randrange(1, nfrag)
+        if nfrag >= 3 and rng.random() < 0.4:
+            # one fragment carries a UMI error (Hamming distance 1, still joins); often the FIRST one, so the
+            # molecule's UMI has to move to the most common one as fragments arrive
+            k = rng.choice([0, 0, rng.randrange(0, nfrag)])
             u = list(umi); u[0] = {'A': 'C', 'C': 'G', 'G': 'T', 'T': 'A'}[u[0]]
             frags[k]['umi'] = ''.join(u)
         c = {'ref': ref, 'klass': klass, 'fragments': frags, 'sample': 'LIB_%d' % rng.randint(0, 383), 'umi': umi,
@@ -314,6 +316,12 @@ class Gen:
              'max_fragments': (rng.randint(1, nfrag) if (nfrag > 1 and rng.random() < 0.15 and not any('umi' in f for f in frags)) else None)}
         if c['path'] == 'write':
             c['max_N_span'] = None          # write_pysam(consensus=True) never passes max_N_span
+        # contig of the molecule and which target header the consensus is requested for (impl_c15.TARGET_CONTIGS):
+        # 0 same order as the reads' header, 1 reordered + extra contig, 2 only chr2/chr10
+        c['contig'] = rng.choice(['chr1', 'chr2', 'chr10', 'chrX'])
+        c['target'] = rng.choice([0, 1, 1, 2]) if c['contig'] in ('chr2', 'chr10') else rng.choice([0, 1, 1])
+        if c['target'] != 0 and c['path'] == 'write':
+            c['no_source'] = True           # source reads can only be written to a file that shares their header
         return c
 
     def conflict(self):
@@ -382,6 +390,7 @@ def cigar_blocks(start, cigar):
 
 
 KEY_D31 = 'C15:error:TypeError'
+TARGETS = [['chr1', 'chr2', 'chr10', 'chrX'], ['chrM', 'chr10', 'chrX', 'chr2', 'chr1'], ['chr2', 'chr10']]   # = impl_c15.TARGET_CONTIGS
 
 
 class Prop(fw.PropBase):
@@ -561,7 +570,18 @@ class Prop(fw.PropBase):
                 c['sample'] = 'CELL_%d' % mi
                 c['max_fragments'] = None
                 c['max_N_span'] = None
+                c['contig'], c['target'] = 'chr1', 0     # the command line writes with the input header
                 mols.append(c)
+            # a molecule whose FIRST fragment (file order; all single-end, same start) carries the minority UMI
+            S = 2400
+            u = 'ACGTAC'
+            frs = []
+            for i, umi in enumerate(['CCGTAC', u, u]):
+                L = 30 + 3 * i
+                seq = ('CATG' if klass == 'nla' else ref[S:S + 4]) + ref[S + 4:S + L]
+                frs.append({'umi': umi, 'reads': [{'pos': S, 'cigar': [[0, L]], 'seq': seq, 'qual': [30] * L, 'rev': False, 'mapq': 60}, None]})
+            mols.append({'ref': ref, 'klass': klass, 'fragments': frs, 'sample': 'CELL_UMI', 'umi': u, 'bc': 'AACCGGTT',
+                         'max_N_span': None, 'path': 'write', 'no_source': k % 2 == 1, 'max_fragments': None})
             # one contig of >= 100000 bp: the command line forces one job per contig and (D8, property C05) drops a
             # lone contig shorter than that
             tail = ''.join(self.rng.choice(BASES) for _ in range(200)) * 490
@@ -638,6 +658,9 @@ class Prop(fw.PropBase):
                         v.append(('call', 'position %d called %s, observations %r: most likely is %s (%s)' % (p, b, obs[p][:12], exp, kind)))
                         break
             t = r['tags']
+            if r['contig'] != c.get('contig', 'chr1'):
+                v.append(('contig', 'record placed on contig %s, the molecule is on %s (target header order %r)'
+                          % (r['contig'], c.get('contig', 'chr1'), TARGETS[c.get('target', 0)])))
             flag = 16 if m['strand'] else 0
             if r['flag'] != flag:
                 v.append(('flag', 'flag %d, expected %d' % (r['flag'], flag)))
@@ -826,7 +849,7 @@ class Prop(fw.PropBase):
                 if g_['nqual'] != len(e['seq']): d['nqual'] = (len(e['seq']), g_['nqual'])
                 if g_['flag'] != (16 if e['reverse'] else 0): d['flag'] = (16 if e['reverse'] else 0, g_['flag'])
                 if g_['mapq'] != e['mapq']: d['mapq'] = (e['mapq'], g_['mapq'])
-                if g_['contig'] != 'chr1': d['contig'] = g_['contig']
+                if g_['contig'] != c.get('contig', 'chr1'): d['contig'] = (c.get('contig', 'chr1'), g_['contig'])
                 t = g_['tags']
                 for k in ('SM', 'DS', 'RX', 'BC', 'MI', 'TF'):
                     if t.get(k) != e[k]: d[k] = (e[k], t.get(k))
